@@ -1819,14 +1819,14 @@ fn verify_nsec(
 
     // The SOA name, if present, must be an ancestor of the query name.  If a SOA is present,
     // we'll use that as the starting value for next_closest_encloser, otherwise, fall back to
-    // the parent of the query name.
+    // the root name: the closest encloser is then derived from the covering NSEC record alone.
     let mut next_closest_encloser = if let Some(soa_name) = soa_name {
         if !soa_name.zone_of(&query.name) {
             return nsec1_yield(Proof::Bogus, "SOA record is for the wrong zone");
         }
         soa_name.clone()
     } else {
-        query.name.base_name()
+        Name::root()
     };
 
     let have_answer = !answers.is_empty();
@@ -1957,13 +1957,12 @@ fn verify_nsec(
         Some((_, _)) if response_code == ResponseCode::NXDomain && !have_answer => {
             nsec1_yield(Proof::Secure, "no direct match, no wildcard")
         }
-        // For wildcard expansion responses, we need to prove there are no closer matches and no exact match.
+        // For wildcard expansion responses, we've already proved there is no exact match. There is no
+        // closer match if the wildcard used to generate the response is the one at the closest encloser.
         // (RFC 4035 5.3.4 and B.6/C.6)
-        Some((_, _))
-            if response_code == ResponseCode::NoError
-                && have_answer
-                && no_closer_matches(&query.name, soa_name, nsecs, wildcard_base_name.as_ref())
-                && find_nsec_covering_record(&query.name, nsecs).is_some() =>
+        None if response_code == ResponseCode::NoError
+            && have_answer
+            && wildcard_base_name.as_ref() == Some(&wildcard_name) =>
         {
             nsec1_yield(
                 Proof::Secure,
@@ -2918,6 +2917,65 @@ mod test {
                 ],
             ),
             Proof::Secure
+        );
+
+        Ok(())
+    }
+
+    // The closest encloser is derived from the NSEC record that encloses the query name, whether
+    // the response contains a SOA record or not
+    #[test]
+    fn nsec_closest_encloser_without_soa() -> Result<(), ProtoError> {
+        subscribe();
+
+        // The closest encloser is the parent of the query name, and the wildcard used to generate
+        // the response is the one at the closest encloser.
+        let query_name = Name::from_ascii("a.w.example.")?;
+        assert_eq!(
+            verify_nsec(
+                &Query::new(query_name.clone(), MX),
+                None,
+                ResponseCode::NoError,
+                &wildcard_expansion_answers(&query_name, 2),
+                &[(
+                    &Name::from_ascii("*.w.example.")?,
+                    &rdataNSEC::new(Name::from_ascii("x.w.example.")?, [MX, NSEC, RRSIG],),
+                ),],
+            ),
+            Proof::Secure
+        );
+
+        // This NSEC shows that z.w.example. exists, the response can't be generated from the
+        // wildcard *.w.example.
+        let query_name = Name::from_ascii("a.z.w.example.")?;
+        assert_eq!(
+            verify_nsec(
+                &Query::new(query_name.clone(), MX),
+                None,
+                ResponseCode::NoError,
+                &wildcard_expansion_answers(&query_name, 2),
+                &[(
+                    &Name::from_ascii("*.w.example.")?,
+                    &rdataNSEC::new(Name::from_ascii("b.z.w.example.")?, [MX, NSEC, RRSIG],),
+                ),],
+            ),
+            Proof::Bogus
+        );
+
+        // The closest encloser is example., this NSEC does not prove that the wildcard *.example.
+        // does not exist.
+        assert_eq!(
+            verify_nsec(
+                &Query::new(Name::from_ascii("b.b.example.")?, A),
+                None,
+                ResponseCode::NXDomain,
+                &[],
+                &[(
+                    &Name::from_ascii("a.example.")?,
+                    &rdataNSEC::new(Name::from_ascii("c.example.")?, [A, NSEC, RRSIG],),
+                ),],
+            ),
+            Proof::Bogus
         );
 
         Ok(())
